@@ -72,6 +72,14 @@ func c06Bodies() []c06Body {
 			return Func(nil, true, Emit(Str("n-in"), Vararg()), CallS(Name("report"), Str("n-before")), Emit(Str("n-res"), CallN("presume", Num(1), Str("from-nested"))), CallS(Name("report"), Str("n-after")),
 				Emit(Str("n-got"), cy(Str("n-y"))), Return(Str("n-ret")))
 		}, nil},
+		{"nested2", func() *FuncExpr {
+			// resumes the coroutine in slot 2: with "nested" in slot 2 this gives three levels of resumes
+			return Func(nil, true, CallS(Name("report"), Str("n2-before")), Emit(Str("n2-res"), CallN("presume", Num(2), Str("from-nested2"))), CallS(Name("report"), Str("n2-after")), Emit(Str("n2-got"), cy(Str("n2-y"))), Return(Str("n2-ret")))
+		}, nil},
+		{"reporter", func() *FuncExpr {
+			// reports the status of every coroutine as seen from the innermost one
+			return Func(nil, true, CallS(Name("report"), Str("rep-in")), Emit(Str("rep-got"), cy(Str("rep-y"))), CallS(Name("report"), Str("rep-in2")), Return(Str("rep-ret")))
+		}, nil},
 		{"selfresume", func() *FuncExpr {
 			return Func(nil, false, Local1("me", Call(Dot(Name("coroutine"), "running"))), Emit(Str("self"), Call(Dot(Name("coroutine"), "status"), Name("me")), Paren(Call(Dot(Name("coroutine"), "resume"), Name("me")))), Emit(Str("self-got"), cy(Str("s-y"))), Return(Str("self-ret")))
 		}, nil},
@@ -96,6 +104,8 @@ func c06Bodies() []c06Body {
 		}, nil},
 	}
 }
+
+var c06Interacting = map[string]bool{"nested": true, "nested2": true, "reporter": true, "selfresume": true, "yield1": true, "errtab": true, "upwrite": true, "faultescape": true}
 
 type c06Op struct {
 	Kind  string `json:"op"` // create | wrap | resume | status | genfor
@@ -236,6 +246,9 @@ func runC06(r *harness.Run) {
 			}
 			if free > 0 && d <= fullDepth {
 				for b := range bodies {
+					if !r.Thorough() && d >= 3 && !c06Interacting[bodies[b].name] {
+						continue // quick tier: the third operation creates only bodies that interact with other coroutines
+					}
 					menu = append(menu, c06Op{Kind: "create", Body: b, Slot: free}, c06Op{Kind: "wrap", Body: b, Slot: free})
 				}
 			}
@@ -374,6 +387,10 @@ func c06Key(bodies []c06Body, h []c06Op, mo glrun.MOutcome) (string, [c06Slots +
 			if e.Args[2].S == "true" {
 				okc[1]++
 			}
+		case tag == "s:n2-res" && len(e.Args) >= 3:
+			if e.Args[2].S == "true" {
+				okc[2]++
+			}
 		case strings.HasPrefix(tag, "s:st"):
 			var ss []string
 			for _, a := range e.Args[1:] {
@@ -397,7 +414,7 @@ func c06Key(bodies []c06Body, h []c06Op, mo glrun.MOutcome) (string, [c06Slots +
 // same drive sequence performed from Lua on the same implementation and on the model.
 func c06GoAPI(r *harness.Run, bodies []c06Body) {
 	for bi, b := range bodies {
-		if b.name == "nested" || b.name == "upwrite" || b.name == "setter" || b.name == "faultescape" {
+		if b.name == "nested" || b.name == "nested2" || b.name == "reporter" || b.name == "upwrite" || b.name == "setter" || b.name == "faultescape" {
 			continue // these bodies use the drive program's own locals
 		}
 		for nres := 1; nres <= 5; nres++ {
